@@ -590,8 +590,6 @@ func (h *httpServerHandler) handleGet(ctx context.Context, w http.ResponseWriter
 	// Set SSE response headers
 	sseutil.SetStandardHeaders(w)
 	w.Header().Set(httputil.SessionIDHeader, session.GetID())
-	w.WriteHeader(http.StatusOK)
-	flusher.Flush()
 
 	// Create context, for canceling connection
 	connCtx, cancelConn := context.WithCancel(ctx)
@@ -617,6 +615,13 @@ func (h *httpServerHandler) handleGet(ctx context.Context, w http.ResponseWriter
 	}
 	h.getSSEConnections[session.GetID()] = conn
 	h.getSSEConnectionsLock.Unlock()
+
+	// Send the response headers only now that the stream is registered: once the client has seen
+	// them, everything addressed to the session must go out on this stream.
+	conn.writeLock.Lock()
+	w.WriteHeader(http.StatusOK)
+	flusher.Flush()
+	conn.writeLock.Unlock()
 
 	// Record connection information
 	h.logger.Infof("Established GET SSE connection, session ID: %s", session.GetID())
